@@ -14,17 +14,20 @@
 (* offset of its first byte (replica 0: [0, end]).  '\r' is ordinary        *)
 (* content for this source.                                                *)
 (*                                                                         *)
-(* The wrapper builds EVERY file over the tokens x | LF | CRLF (CRLF only  *)
-(* when the constant CRLF is TRUE) of at most MAXLEN bytes, one token per  *)
-(* step, and then splits it for every replica count 1..MAXREP.  A content  *)
+(* The wrapper builds, one token per step, EVERY file over the tokens      *)
+(* x | LF of at most MAXLEN bytes and EVERY file over x | LF | CRLF of at  *)
+(* most CRLFLEN bytes (one run enumerates both spaces; their number is     *)
+(* F(MAXLEN) + G(CRLFLEN) - F(CRLFLEN) with F(n) = 2^(n+1) - 1 and         *)
+(* G(n) = sum of a(k), a(k) = 2a(k-1) + a(k-2)), and then splits it for    *)
+(* every replica count 1..MAXREP.  A content                               *)
 (* byte at position i is materialised as the letter 96+i, so that every    *)
 (* non-empty line of a file is unique (the split only looks at '\n').      *)
 (***************************************************************************)
 EXTENDS Naturals, Integers, Sequences, FiniteSets, TLC, Json, SourceProps
 
-CONSTANTS MAXLEN,   \* maximal file size in bytes
+CONSTANTS MAXLEN,   \* maximal size in bytes of a file without "\r\n"
           MAXREP,   \* replica counts 1..MAXREP
-          CRLF      \* TRUE: the token "\r\n" is available
+          CRLFLEN   \* maximal size of a file that contains the token "\r\n" (0: no such file)
 
 X == 120   \* abstract content byte
 
@@ -67,9 +70,11 @@ FileOut(b, n) == [g \in 1..n |-> FileLines(b, n, g - 1)]
 ---------------------------------------------------------------------------
 Init == file = <<>> /\ phase = "build" /\ out = <<>>
 
-AppendX == phase = "build" /\ Len(file) < MAXLEN /\ file' = Append(file, X) /\ UNCHANGED <<phase, out>>
-AppendLF == phase = "build" /\ Len(file) < MAXLEN /\ file' = Append(file, NL) /\ UNCHANGED <<phase, out>>
-AppendCRLF == CRLF /\ phase = "build" /\ Len(file) + 2 <= MAXLEN /\ file' = file \o <<CR, NL>>
+HasCR(f) == \E i \in DOMAIN f : f[i] = CR
+Room(f) == IF HasCR(f) THEN Len(f) < CRLFLEN ELSE Len(f) < MAXLEN
+AppendX == phase = "build" /\ Room(file) /\ file' = Append(file, X) /\ UNCHANGED <<phase, out>>
+AppendLF == phase = "build" /\ Room(file) /\ file' = Append(file, NL) /\ UNCHANGED <<phase, out>>
+AppendCRLF == phase = "build" /\ Len(file) + 2 <= CRLFLEN /\ file' = file \o <<CR, NL>>
               /\ UNCHANGED <<phase, out>>
 Split == /\ phase = "build"
          /\ phase' = "done"
